@@ -612,7 +612,9 @@ class Interp:
             if attr == "__class__":
                 return ClassRef(o.cls)
             if attr == "__dict__":
-                return PyDict(dict(o.f))
+                d = PyDict(dict(o.f))
+                d.dict_of = o                   # live view: `self.__dict__.update(state)` / item assignment write through to the object (see lib dict.update)
+                return d
             if o.cls in self.front.classes:
                 p = self.front.find_property(o.cls, attr)
                 if p is not None:
